@@ -4,7 +4,7 @@ SPEC = {
     "gen": ["registryconsts"],
     "streams": [
         {"name": "registry", "cmd": "registry",
-         "args": {"quick": ["-cases", "300"], "thorough": ["-cases", "12000"]},
+         "args": {"quick": ["-cases", "170"], "thorough": ["-cases", "5000"]},
          "search_args": ["-cases", "3000"]},
     ],
     "trusted_base": [
@@ -12,7 +12,7 @@ SPEC = {
         "harness/cmd/registry (drives the real registry state layer and the registry application's ExecuteTx/BeginBlock on the mock application state of go/consensus/cometbft/api; records the public query API as Coq terms); no hook files in /repo",
         "vm_compute evaluation of Verif.Registry.Model on the recorded histories (no extraction)",
         "modelled, not verified: signatures (a descriptor = blob + list of signing keys + one flag 'all signatures verify'), CBOR, MKVS as finite maps, consensus address = identity on the numbered key pool (the harness checks the pool addresses are pairwise distinct)",
-        "modelled since the growth round: RegisterRuntime (governance entity/runtime, caller accounts incl. runtime messages, owner/governance changes, entity whitelist admission, suspension by the environment, resumption by node registration), node roles and runtime lists, threshold kinds of claims; key-manager references of compute runtimes, node status (freeze/unfreeze, expiration flag); reference oracles run on every end state: registry genesis export + Genesis.SanityCheck, and registry.AddStakeClaims + staking.SanityCheckStake; harness/cmd/gen registryconsts also reads the order of the checks in VerifyNodeUpdate; not modelled: TEE, runtime deployments/versions (one constant deployment, DebugDeployImmediately), per-role admission limits, addresses/TLS well-formedness (always well-formed in the harness), election eligibility set by other applications, gas, stake amounts (all thresholds zero), genesis/sanity-check modes, 2^64 epoch overflow guard",
+        "modelled since the growth round: RegisterRuntime (governance entity/runtime, caller accounts incl. runtime messages, owner/governance changes, entity whitelist admission, suspension by the environment, resumption by node registration), node roles and runtime lists, threshold kinds of claims; key-manager references of compute runtimes, node status (freeze/unfreeze, expiration flag); reference oracles run on every end state: registry genesis export + Genesis.SanityCheck, and registry.AddStakeClaims + staking.SanityCheckStake; harness/cmd/gen registryconsts also reads the order of the checks in VerifyNodeUpdate; runtime deployments (ValidateDeployments loop, immediate-deployment ban, update rules), genesis immutability, entity-whitelist per-role max nodes and per-role policies with the counting loop; not modelled: valid SGX constraints (TEE hardware other than 'none' never validates in the generated space), node runtime versions (constant 0), bundle checksums, addresses/TLS well-formedness (always well-formed in the harness), election eligibility set by other applications, gas, stake amounts (all thresholds zero), genesis/sanity-check modes, 2^64 epoch overflow guard",
     ],
     "assumptions": [
         "transactions are executed the way the multiplexer does (transaction child context, committed only on success)",
@@ -23,5 +23,5 @@ SPEC = {
 MANIFEST = {
     "technique": "Coq proof (invariants by induction over operation histories of an executable port of SetNode/RemoveNode/VerifyRegisterNodeArgs/VerifyNodeUpdate/registerNode/registerEntity/deregisterEntity/onRegistryEpochChanged; refutation witness by vm_compute) with differential correspondence check against the real registry code and an implementation-side index/authority oracle",
     "level_text": "Theorems in coq/Props/C17.v hold for every history and every key assignment: authority of node and entity record changes, rejection without state change of every registration with a missing signature / wrong transaction signer / node outside the entity's list, entity not removable while owning nodes or runtimes, and key-map / nodes-by-entity consistency (a) REFUTED for the code's SetNode order by a key-exchange update, (b) proved for all histories without such an exchange, (c) proved unconditionally for the reordered SetNode. The model is tied to the code by replaying seeded histories through the real state layer and through ExecuteTx/BeginBlock and comparing the complete public query surface after every operation; an independent Go oracle recomputes the indexes from the primary records.",
-    "level_note": "Trusted: Coq kernel; the harness; signatures abstracted to signer lists; consensus-address index: cons_addr_index_mirrors_records (\/ collision form); runtime deployments/versions and per-role admission limits are not modelled.",
+    "level_note": "Trusted: Coq kernel; the harness; signatures abstracted to signer lists; consensus-address index: cons_addr_index_mirrors_records (\/ collision form); the per-role count invariant is proved at registration time (pre-state form), not as a history invariant (a runtime update may lower a limit below the admitted count: Example lowering_the_limit_does_not_evict).",
 }
